@@ -29,6 +29,8 @@ func runC08(c *core.Ctx) {
 	h.commitConfigTied("C08.4 commit-config")
 	c.Clause("C08.5 voter cache of the leader follows the configuration (E4)")
 	h.voterCacheFreshness("C08.5 voter-cache")
+	h.leaderInitEstablishes("C08.5b voter-cache", "leader.numVoters")
+	h.configActionProgress("C08.7 membership-effect", "effect")
 	c.Clause("C08.6 configurations rebuilt on restart: newest configuration entry above the snapshot is Latest, next is Committed, snapshot label as fallback")
 	h.openStorageRebuild("C08.6 restart-rebuild")
 }
@@ -41,6 +43,8 @@ func runC11(c *core.Ctx) {
 	c.Clause("C11.2 acknowledgements of non-voters never count; non-voting leader excluded; voter cache fresh")
 	h.majorityOverVoters("C11.2a majority")
 	h.voterCacheFreshness("C11.2b voter-cache")
+	h.leaderInitEstablishes("C11.2c voter-cache", "leader.numVoters")
+	h.configActionProgress("C11.3b promotion-rounds", "rounds")
 	c.Clause("C11.3 promotion only after a finished, fast-enough round; rounds finish only at their target")
 	h.promotionGate("C11.3 promotion")
 	c.Clause("C11.4 leader yields when a committed configuration no longer lists it as voter; shutdown-on-remove only after commit")
